@@ -48,7 +48,8 @@ def plan_for(prop, tier):
                 dict(kind="worker", name="tmpl3-seeded", variant="gzero", part="tmpl3", runs=4000 if q else 40000, block=500, hash_mod=0, key_mod=1, template="k3"),
                 dict(kind="enumerate", name="k3-exhaustive", variant="asan", k=3, names=1, fy=False, template="k3"),
                 dict(kind="enumerate", name="k3-exhaustive-tsan", variant="tsan", k=3, names=1, fy=False),
-            ] + ([] if q else [dict(kind="enumerate", name="k4-bounded", variant="gzero", k=4, names=1, fy=False, limit=2000000, shards=16)]))
+                dict(kind="enumerate", name="k4-exhaustive-symm", variant="asan", k=4, names=1, fy=False, symmetry=True, shard_depth=5),
+            ] + ([] if q else [dict(kind="enumerate", name="k4-exhaustive-symm-tsan", variant="tsan", k=4, names=1, fy=False, symmetry=True, shard_depth=5)]))
     if prop == "C20":
         return dict(
             variants=["asan", "gzero"], level="exploration", assumptions=ASSUME_COMMON + [
@@ -62,7 +63,8 @@ def plan_for(prop, tier):
                 dict(kind="worker", name="tmpl3f-seeded", variant="gzero", part="tmpl3f", runs=4000 if q else 40000, block=500, hash_mod=0, key_mod=1, template="k3f"),
                 dict(kind="enumerate", name="k3-factory-yields-exhaustive", variant="asan", k=3, names=1, fy=True, template="k3f"),
                 dict(kind="enumerate", name="k3-two-names-exhaustive", variant="asan", k=3, names=2, fy=True),
-            ] + ([] if q else [dict(kind="enumerate", name="k4-bounded", variant="gzero", k=4, names=2, fy=False, limit=2000000, shards=16)]))
+                dict(kind="enumerate", name="k4-factory-yields-exhaustive-symm", variant="asan", k=4, names=1, fy=True, symmetry=True, shard_depth=6),
+            ] + ([] if q else [dict(kind="enumerate", name="k4-one-name-exhaustive-symm", variant="asan", k=4, names=1, fy=False, symmetry=True, shard_depth=5)]))
     if prop == "C14":
         return dict(
             variants=["asan", "tsan"], level="exploration", assumptions=ASSUME_COMMON + [
@@ -155,16 +157,25 @@ def stage_digestdiff(st, prop, tier, seed, say):
 def run_enumerate(stage, prop, say):
     binary = os.path.join(B.BUILD, stage["variant"], "simzone")
     k = stage["k"]
+    base = [binary, "enumerate", "--prop", prop, "--k", str(k), "--names", str(stage["names"])]
+    if stage.get("fy"):
+        base.append("--fy")
+    if stage.get("symmetry"):
+        base.append("--symmetry")
     shards = [""]
-    if stage.get("shards", 1) > 1:
+    if stage.get("shard_depth"):
+        # One cheap pass that only branches in the first D free steps lists every (symmetry-reduced) prefix of that depth.
+        p = subprocess.run(base + ["--max-depth", str(stage["shard_depth"]), "--limit", "100000"], capture_output=True, text=True, env=R._env(), timeout=600, errors="replace")
+        d = [j for j in R.parse_lines(p.stdout) if j.get("done")]
+        if d and d[0].get("prefixes"):
+            shards = sorted(set(",".join(str(x) for x in pf) for pf in d[0]["prefixes"]))
+    elif stage.get("shards", 1) > 1:
         shards = ["%d,%d" % (a, b) for a in range(k) for b in range(k)]
     limit = stage.get("limit", 50000000)
-    per = max(1, limit // len(shards))
+    per = max(1, limit // len(shards)) if not stage.get("shard_depth") else limit
 
     def one(prefix):
-        cmd = [binary, "enumerate", "--prop", prop, "--k", str(k), "--names", str(stage["names"]), "--limit", str(per)]
-        if stage.get("fy"):
-            cmd.append("--fy")
+        cmd = base + ["--limit", str(per)]
         if prefix:
             cmd += ["--prefix", prefix]
         p = subprocess.run(cmd, capture_output=True, text=True, env=R._env(), timeout=3600, errors="replace")
